@@ -234,7 +234,7 @@ func TestC04FairOrder(t *testing.T) {
 		"fairAdvance", "fairAdvance", "fairAdvance", "cancelStream",
 	}
 	p := &profile{
-		name: "C04", ops: ops, minSteps: 8, maxSteps: 70, instances: []string{""},
+		name: "C04", ops: ops, minSteps: 8, maxSteps: 70, instances: []string{"", "", "a"}, mixedDepth: true,
 		queues: fairQueues, workers: [2]int{1, 4}, actions: [2]int{3, 6}, invDepth: [2]int{0, 3},
 		syncKinds: []string{"auto"}, finalDrain: false, fair: true,
 		nontrivial: func(l labels) bool { return l["fair_choice_among_2plus"] > 0 },
